@@ -198,14 +198,41 @@ def _job_wrapper(args):
 
     from symex import core as C
 
+    import signal
+
     C.STATS.__init__()
     t0 = time.time()
+    limit = int(os.environ.get('VERIF_JOB_TIMEOUT', '1500' if os.environ.get('VERIF_TIER') == 'thorough' else '400'))
+
+    class JobTimeout(BaseException):
+        pass
+
+    def _alarm(*a):
+        raise JobTimeout(f'job exceeded {limit} s')
+
+    old = None
+    try:
+        old = signal.signal(signal.SIGALRM, _alarm)
+        signal.alarm(limit)
+    except ValueError:
+        old = None  # not in the main thread
     try:
         res = fn(job, seed)
+        err = None
+    except JobTimeout as e:
+        res = {'obligations': [{'name': f'{getattr(fn, "__name__", "job")}{str(job)[:80]}: completes within the time budget', 'status': 'inconclusive',
+                                'detail': str(e), 't': float(limit)}], 'candidates': [], 'paths': 0}
         err = None
     except BaseException as e:  # noqa: BLE001  (executor control exceptions are BaseException)
         res = {'obligations': [], 'candidates': [], 'paths': 0}
         err = f'{type(e).__name__}: {e}\n{traceback.format_exc()[-1500:]}'
+    finally:
+        try:
+            signal.alarm(0)
+            if old is not None:
+                signal.signal(signal.SIGALRM, old)
+        except ValueError:
+            pass
     st = C.STATS
     res['stats'] = {'queries': st.queries, 'solver_time': st.solver_time, 'shapes': list(st.shapes), 'by_result': st.by_result, 'cross': st.cross}
     res['error'] = err
